@@ -160,6 +160,83 @@ Section Proto.
       let '(d', l) := multi_run c rest (r_db r) in (d', r_log r ++ l)
     end.
 
+  (* ---- the same process start in small steps (one database call per step), for interleavings of two
+     starters on one database.  A process keeps its own position: the version is read once per stream, the
+     loop index i is local (update.go: `for i := ver; ...`). *)
+  Inductive pc := PCreateVer | PCreateVD | PRead | PScript (i : nat) | PIns (i : nat).
+  (* p_ks: the streams still to do, the head in progress ([] = returned); p_ok: no error so far *)
+  Record proc := { p_ks : list stream; p_pc : pc; p_ok : bool }.
+  Definition proc0 (c : cfg) : proc := {| p_ks := streams_of c; p_pc := PCreateVer; p_ok := true |}.
+  Definition p_fail : proc := {| p_ks := []; p_pc := PCreateVer; p_ok := false |}.
+  Definition p_at (ks : list stream) (x : pc) : proc := {| p_ks := ks; p_pc := x; p_ok := true |}.
+  Definition p_next (k : stream) (ks : list stream) (v : nat) : proc :=
+    if v <? List.length (scripts k) then p_at (k :: ks) (PScript v) else p_at ks PCreateVer.
+  Definition pstep (c : cfg) (p : proc) (o : outcome) (d : db) : proc * db * list event :=
+    match p_ks p with
+    | [] => (p, d, [])
+    | k :: ks =>
+      match p_pc p with
+      | PCreateVer =>
+        let '(d1, r) := do_call o eff_create_ver peff_none d in
+        (if res_ok r then p_at (k :: ks) (if clustered c then PCreateVD else PRead) else p_fail, d1, [ECreateVer r])
+      | PCreateVD =>
+        let '(d1, r) := do_call o eff_create_vd peff_none d in
+        (if res_ok r then p_at (k :: ks) PRead else p_fail, d1, [ECreateVerDist r])
+      | PRead =>
+        let '(d1, r) := do_call o (eff_read c) peff_none d in
+        (if res_ok r then p_next k ks (d_vers d1 k) else p_fail, d1, [EReadVer k (if res_ok r then d_vers d1 k else 0) r])
+      | PScript i =>
+        match nth_error (scripts k) i with
+        | None => (p_next k ks i, d, [])
+        | Some x =>
+          let '(d1, r) := do_call o (eff_script x) (peff_script x) d in
+          (if res_ok r then p_at (k :: ks) (PIns i) else p_fail, d1, [EScript k i r])
+        end
+      | PIns i =>
+        let '(d1, r) := do_call o (eff_setver k (S i)) peff_none d in
+        (if res_ok r then p_next k ks (S i) else p_fail, d1, [EInsVer k (S i) r])
+      end
+    end.
+  (* one process alone: as many steps as it takes (fuel), consuming the outcome list like `update` *)
+  Fixpoint solo_run (c : cfg) (fuel : nat) (p : proc) (os : list outcome) (d : db) : proc * db * list event :=
+    match fuel with
+    | O => (p, d, [])
+    | S f =>
+      match p_ks p with
+      | [] => (p, d, [])
+      | _ => let '(p1, d1, l1) := pstep c p (o_hd os) d in
+             let '(p2, d2, l2) := solo_run c f p1 (match l1 with [] => os | _ => tl os end) d1 in (p2, d2, l1 ++ l2)
+      end
+    end.
+  (* two starters p (false) and q (true) on one database; the schedule says who makes the next call and how it
+     ends *)
+  Fixpoint conc_run (c : cfg) (sched : list (bool * outcome)) (p q : proc) (d : db) : proc * proc * db * list (bool * event) :=
+    match sched with
+    | [] => (p, q, d, [])
+    | (who, o) :: rest =>
+      if who then
+        let '(q1, d1, l1) := pstep c q o d in
+        let '(pf, qf, df, lf) := conc_run c rest p q1 d1 in (pf, qf, df, map (pair true) l1 ++ lf)
+      else
+        let '(p1, d1, l1) := pstep c p o d in
+        let '(pf, qf, df, lf) := conc_run c rest p1 q d1 in (pf, qf, df, map (pair false) l1 ++ lf)
+    end.
+  Definition plog (who : bool) (l : list (bool * event)) : list event := map snd (filter (fun e => Bool.eqb (fst e) who) l).
+  (* what survives concurrency, per process: a version is only written right after this very process saw the
+     script of that version complete *)
+  Fixpoint pmon (last : option event) (l : list event) : bool :=
+    match l with
+    | [] => true
+    | e :: r =>
+      match e with
+      | EInsVer k v _ => match last with
+                         | Some (EScript k' i ROk) => stream_eqb k k' && (v =? S i)
+                         | _ => false
+                         end
+      | _ => true
+      end && pmon (Some e) r
+    end.
+
   Definition db0 (c0 : cat) : db := {| d_cat := c0; d_ver_tbl := false; d_vd_tbl := false; d_vers := fun _ => 0 |}.
 
   (* ---- what an uninterrupted migration computes *)
@@ -664,6 +741,78 @@ Section Obs.
     | _ => 0%N
     end.
   Definition spec_violation (c : case) : bool := negb (N.eqb (spec_code c) 0).
+
+  (* ---- two concurrent starters as observed: the schedule (who makes the next call, how it ends), the merged
+     call log tagged with the process, whether each Update returned nil before the schedule ended (a process
+     still running then is killed), the undisturbed solo starts afterwards, the final database *)
+  Record ccase := { cc_id : Z; cc_cfg : cfg; cc_nhosts : nat; cc_sched : list (bool * outcome);
+                    cc_log : list (bool * oevent); cc_pnil : bool; cc_qnil : bool; cc_after : list orun;
+                    cc_hosts : list cat; cc_ver_tbl : bool; cc_vd_tbl : bool; cc_vers : list (N * N) }.
+
+  Definition ch_conc (c : cfg) :=
+    conc_run (ccat cat) (cstmt stmt) (cl_exec cat stmt (exec_ch (cloud c))) (cl_pexec cat stmt (exec_ch (cloud c))) (cl_scripts c) c.
+  Definition returned_nil (p : proc) : bool := p_ok p && match p_ks p with [] => true | _ => false end.
+  Definition tagged_eqb (a b : bool * oevent) : bool := Bool.eqb (fst a) (fst b) && oevent_eqb (snd a) (snd b).
+
+  Definition conc_mismatch (c : ccase) : bool :=
+    let '(p, q, d0, l) := ch_conc (cc_cfg c) (cc_sched c) (proc0 (cc_cfg c)) (proc0 (cc_cfg c)) (db0 (ccat cat) (hosts0 (cc_nhosts c))) in
+    let '(d, same) := model_runs (cc_cfg c) (cc_after c) d0 in
+    negb (list_eqb tagged_eqb (map (fun e => (fst e, abs_event (snd e))) l) (cc_log c)
+          && Bool.eqb (returned_nil p) (cc_pnil c) && Bool.eqb (returned_nil q) (cc_qnil c)
+          && same && list_eqb cat_eqb (d_cat d) (cc_hosts c) && Bool.eqb (d_ver_tbl d) (cc_ver_tbl c)
+          && Bool.eqb (d_vd_tbl d) (cc_vd_tbl c) && vers_eqb (vers_list d) (cc_vers c)).
+
+  (* the monitor on a merged log: the stream in progress is kept per process *)
+  Record omst2 := { o2_m : omst; o2_p : option stream; o2_q : option stream }.
+  Definition omon2_step (m2 : omst2) (we : bool * oevent) : option omst2 :=
+    let m := {| om_cur := if fst we then o2_q m2 else o2_p m2; om_app := om_app (o2_m m2); om_rec := om_rec (o2_m m2) |} in
+    match omon_step m (snd we) with
+    | None => None
+    | Some m' => Some {| o2_m := m'; o2_p := if fst we then o2_p m2 else om_cur m'; o2_q := if fst we then om_cur m' else o2_q m2 |}
+    end.
+  Fixpoint omon2_run (m : omst2) (l : list (bool * oevent)) : option omst2 :=
+    match l with [] => Some m | e :: l' => match omon2_step m e with Some m' => omon2_run m' l' | None => None end end.
+  Definition omon2_ok (l : list (bool * oevent)) : bool :=
+    match omon2_run {| o2_m := {| om_cur := None; om_app := fun _ => 0; om_rec := fun _ => 0 |}; o2_p := None; o2_q := None |} l with
+    | Some _ => true | None => false end.
+
+  (* per process, on observations: a version (k, v) is written only right after this process saw the
+     statement that is script v-1 of stream k complete *)
+  Fixpoint opmon (last : option oevent) (l : list oevent) : bool :=
+    match l with
+    | [] => true
+    | e :: r =>
+      match e with
+      | OInsVer kn v _ =>
+        match last, stream_of_k kn with
+        | Some (OScript sid ROk), Some k => negb (N.eqb v 0) && N.eqb sid (sid_at k (Nat.pred (N.to_nat v))) && negb (N.eqb sid 0)
+        | _, _ => false
+        end
+      | _ => true
+      end && opmon (Some e) r
+    end.
+  Definition oplog (who : bool) (l : list (bool * oevent)) : list oevent := map snd (filter (fun e => Bool.eqb (fst e) who) l).
+
+  (* oracle on a concurrent case, as a set of codes (bit i-1 = code i): 5 a process wrote a version it had not
+     just seen complete; 1 the merged log breaks file order / never-ahead / runs a recorded script again;
+     2,3,4 as for a single starter, judged on the undisturbed starts that follow *)
+  Definition conc_spec_codes (c : ccase) : N :=
+    let logs := cc_log c ++ map (pair false) (flat_map or_log (cc_after c)) in
+    let b5 := negb (opmon None (oplog false (cc_log c)) && opmon None (oplog true (cc_log c))) in
+    let b1 := negb (omon2_ok logs) in
+    let e := expected_final (cc_cfg c) (cc_nhosts c) in
+    let '(b2, b3, b4) :=
+      match rev (cc_after c) with
+      | last :: conv :: _ =>
+        (negb (or_ok conv && or_ok last),
+         negb (list_eqb cat_eqb (d_cat e) (cc_hosts c) && vers_eqb (vers_list e) (cc_vers c)),
+         or_ok conv && existsb o_is_script (or_log last))
+      | _ => (false, false, false)
+      end in
+    ((if b1 then 1 else 0) + (if b2 then 2 else 0) + (if b3 then 4 else 0) + (if b4 then 8 else 0) + (if b5 then 16 else 0))%N.
+  Definition conc_mismatches (cs : list ccase) : list Z := map cc_id (filter conc_mismatch cs).
+  Definition conc_violations (cs : list ccase) : list (Z * N) :=
+    map (fun c => (cc_id c, conc_spec_codes c)) (filter (fun c => negb (N.eqb (conc_spec_codes c) 0)) cs).
 
   Definition mismatches (cs : list case) : list Z := map c_id (filter model_mismatch cs).
   Definition spec_violations (cs : list case) : list (Z * N) :=
